@@ -101,7 +101,7 @@ def build_inputs(bits):
         fields[n].append("v: Int")
     sdl = "\n".join(f"input {n} {{ {' '.join(fields[n])} }}" for n in NODES)
     sdl += "\nenum E1 { X1 Y1 }\nenum E2 { X2 }\nenum E3 { X3 }\nenum E4 { X4 }\nenum E5 { X5 }\n"
-    sdl += "type Obj { e3: E3 nested: Nest }\ntype Nest { e4: [E4] }\n"
+    sdl += "interface IObj { nested: Nest }\ntype Obj implements IObj { e3: E3 nested: Nest alt: IObj }\ntype Nest { e4: [E4] }\n"
     sdl += "type Query { f(a: A, c: C, d: D, e: E5): Obj }\n"
     vars_, args = [], []
     needed_enums = set()
@@ -124,8 +124,13 @@ def build_inputs(bits):
         sel = "e3"
         needed_enums.add("E3")
     if e["frag_e4"]:
-        sel += " ...Fr"
-        frag = "\nfragment Fr on Obj { nested { e4 } }"
+        if e["ca"]:
+            # the enum is reachable only through a fragment on an INTERFACE, spread on a field of that interface type (base class)
+            sel += " alt { ...Fi }"
+            frag = "\nfragment Fi on IObj { nested { e4 } }"
+        else:
+            sel += " ...Fr"
+            frag = "\nfragment Fr on Obj { nested { e4 } }"
         needed_enums.add("E4")
     q = f"query Q{'(' + ', '.join(vars_) + ')' if vars_ else ''} {{ f{'(' + ', '.join(args) + ')' if args else ''} {{ {sel} }} }}{frag}"
     needed_inputs = set()
